@@ -126,17 +126,17 @@ def splitAtByte : Str → Nat → Option (Str × Str)
 
 /-- `String::replace_range(lo..hi, rep)` (`lo ≤ hi`): the range check of `slice::range` comes first
 (not `#[track_caller]`: reported inside `core`), then the two `is_char_boundary` assertions
-(`#[track_caller]`: reported at go.rs:594).  In `convertAcronyms` the first branch is kept for
+(`#[track_caller]`: reported at go.rs:600).  In `convertAcronyms` the first branch is kept for
 fidelity only: `res` never gets shorter than `name` (k matched characters = k replaced bytes are
 replaced by the ≥ k bytes of the upper-cased pattern), so `hi ≤ |name| ≤ |res|`. -/
 def replaceRange (res : Str) (lo hi : Nat) (rep : Str) : Outcome Str :=
   if utf8Len res < hi then .panic s%"index.rs:1020"
   else
     match splitAtByte res lo with
-    | none => .panic s%"go.rs:594"
+    | none => .panic s%"go.rs:600"
     | some (a, rest) =>
       match splitAtByte rest (hi - lo) with
-      | none => .panic s%"go.rs:594"
+      | none => .panic s%"go.rs:600"
       | some (_, b) => .ok (a ++ rep ++ b)
 
 /-- one acronym: the matches are searched in the *original* `name` (byte offset `i`), the test
@@ -443,12 +443,12 @@ def algVariants (U : UnicodeOps) (cfg : Cfg) (e : RustEnum) (structName tagKey :
     (algVariant U cfg e structName tagKey customStructs v st).bind fun (g, st) =>
     (algVariants U cfg e structName tagKey customStructs vs st).bind fun (gs, st) => .ok (g :: gs, st)
 
-/-- `shared.id.original[..1].to_lowercase()`: a byte slice — panics unless the first character is
-one byte long (and on the empty string) -/
+/-- the lower-cased first character of the enum name (since the `fix:` commit a1a83a6; before it
+`shared.id.original[..1]` byte-sliced and panicked on a non-ASCII initial) -/
 def shortName (U : UnicodeOps) (original : Str) : Outcome Str :=
   match original with
-  | c :: _ => if c.utf8Size == 1 then .ok (U.lowerStr [c]) else .panic s%"go.rs:315"
-  | [] => .panic s%"go.rs:315"
+  | c :: _ => .ok (U.lowerStr [c])
+  | [] => .ok []
 
 /-- the `RustEnum::Algebraic` arm of `write_enum` -/
 def algEnumFacts (U : UnicodeOps) (cfg : Cfg) (e : RustEnum) (tagKey contentKey : Str)
